@@ -118,6 +118,27 @@ CHECKS.update({
 
 PENDING = {}
 
+# additions made while testing the checks against independently seeded changes (DESIGN.md section 9.6)
+ADDENDA = {
+ 'C01': ' Fourth clause (re-produce): a dict produced once is overwritten in place with the field values of a second message of identical shape and produced again; the bytes must be those of a fresh dict (stale cached encodings). Forward Open also given by bare fields (sizes decide Small/Large).',
+ 'C03': ' One request in eight comes from the boundary generator of C05 (refused requests must change nothing either); a TCP engine runs the same histories against enip.main.main() with generated command lines.',
+ 'C04': ' Fill values keep extreme anchors extreme at every index (ULINT >= 2**63, LINT near its minimum).',
+ 'C05': ' Set Attribute Single payloads with 1..size-1 stray or missing bytes.',
+ 'C06': ' A quarter of the shards run against --size N (over-size requests: one reply with a non-zero encapsulation status) and a quarter against --route-path; bundle members address other objects and are judged member by member; a client-context clause drives the library client collect() with arbitrary sender contexts.',
+ 'C07': ' Client clause also spells attribute services as generic service-code operations; bundles of 255/256/257/300 small members.',
+ 'C08': ' TCP clause: a session aborted with RST followed by a new session from the same source port; bursts of connections reset before accept; a write request cut at every byte offset followed by end-of-stream.',
+ 'C09': ' Register Session is issued under the schedule too (dedicated sweep scenario and one in four drawn cases); both engines require pairwise distinct session handles of simultaneously open sessions.',
+ 'C13': ' Stall clause: the relay delivers a reply up to byte k, stays silent past the client timeout, then delivers the rest; the connector is driven directly (with conn: harvest(issue(...))) and a later transaction must never yield the delayed reply. poll.run over several cycles.',
+ 'C14': ' Connected sequence counts cross 0x8000/0xFFFF; port-less connection paths (reference session and pylogix Micro800); a second connected session dropped abruptly; raw out-of-range requests must carry 0xFF/0x2105; an exception raised inside pylogix is a failure to interoperate.',
+ 'C15': ' Stream clause: operation streams with per-operation route path text through connector.issue (frames captured, decoded by the reference codec); connector-level default route paths; configuration-file personalities (--config) and main(UCMM_class=...) in the CLI matrix.',
+ 'C16': ' Index expressions as index forms; stored None/False/0.0; pop(path, default) when only the leaf is absent.',
+ 'C19': ' Two-bank inputs hugging the gap between neighbouring banks; limit 0 (= none given); a poller clause drives poller_modbus over an in-process fake transport: every requested register reads back its value.',
+ 'C20': ' Sessions clause: consecutive tnet_from sessions, earlier consumers stopping before all received data was consumed.',
+}
+for _k, _v in ADDENDA.items():
+    CHECKS[_k]['text'] += _v
+
+
 def main():
     ids = [json.loads(l)['id'] for l in open(os.path.join(HERE, 'properties.jsonl')) if l.strip()]
     checks = []
